@@ -71,7 +71,9 @@ def raw_lines(text):
 
 
 def position_status(text, line, col):
-    """'inside' | 'outside' | 'edge' (inside a line terminator: the property does not say)"""
+    """'inside' | 'outside' | 'edge'.  Outside: no such line, negative column, or a column past
+    the end of the line's text (inside or after a `\\n` / `\\r\\n` terminator).  Edge: directly
+    after a lone `\\r` (jedi counts a lone `\\r` as part of the line; the property does not say)."""
     ls = raw_lines(text)
     if line is None:
         line = len(ls)
@@ -80,9 +82,19 @@ def position_status(text, line, col):
     content, term = ls[line - 1]
     if col is None or 0 <= col <= len(content):
         return 'inside'
-    if col < 0 or col > len(content) + len(term):
-        return 'outside'
-    return 'edge'
+    if term == '\r' and col == len(content) + 1:
+        return 'edge'
+    return 'outside'
+
+
+def default_column(text, line):
+    """documented: 'If you provide only the line, just will complete at the end of that line';
+    None where a lone `\\r` makes that ambiguous"""
+    ls = raw_lines(text)
+    if line is None:
+        line = len(ls)
+    content, term = ls[line - 1]
+    return None if term == '\r' else len(content)
 
 
 def exc_key(e):
@@ -380,7 +392,7 @@ def stream_api(ctx, reqs):
     rng = ctx.subrng('api')
     cases = []
     stats = ApiStats()
-    budget = ctx.size(26.0, 900.0)
+    budget = ctx.size(20.0, 900.0)
     t0 = time.time()
     deadline = t0 + budget
     ntexts = 0
@@ -485,8 +497,17 @@ def compare(ctx, cases, answers):
             if model != impl:
                 ctx.tie_broken('correspondence:validate', short({'case': key, 'impl': impl, 'model': model}))
             out = 'ok' if impl['out'] == 'ok' else ('ValueError' if impl.get('cls') == 'ValueError' else (impl.get('cls'), WRAPPER_SITE))
-            oracle_position(ctx, 'validate', text, line, col, out,
-                            'helpers.validate_line_column(probe)(jedi.Script(source), line, column)')
+            how = 'helpers.validate_line_column(probe)(jedi.Script(source), line, column)'
+            if oracle_position(ctx, 'validate', text, line, col, out, how) and out == 'ok':
+                # what the wrapped method receives: the position itself, None replaced by the
+                # last line / the end of the line
+                nl = len(raw_lines(text))
+                want_line = nl if line is None else line
+                want_col = default_column(text, line) if col is None else col
+                if impl['line'] != want_line or (want_col is not None and impl['col'] != want_col):
+                    ctx.fail('validate', 'the wrapped method receives another position than the one asked for',
+                             {'source': text, 'line': line, 'column': col}, expected=[want_line, want_col],
+                             observed=[impl['line'], impl['col']], how=how)
         elif stream in ('methods', 'api'):
             text, line, col, lab = key[1], key[2], key[3], key[4]
             family = key[5] if len(key) > 5 else 'pool'
@@ -560,14 +581,26 @@ def run(ctx):
     load_local_known(ctx, 'C01')
     reqs = []
     cases = []
+    t = [time.time()]
+
+    def lap(name):
+        t.append(time.time())
+        ctx.notes.append('%s: %.1fs' % (name, t[-1] - t[-2]))
     cases += stream_validate(ctx, reqs)
+    lap('validate')
     cases += stream_methods(ctx, reqs)
+    lap('methods')
     cases += stream_helpers(ctx, reqs)
+    lap('helpers')
     stream_known(ctx)
+    lap('known probes')
     cases += stream_api(ctx, reqs)
+    lap('api')
     if ctx.model_ok:
         answers = common.run_driver_parallel('C01', reqs)
+        lap('driver')
         compare(ctx, cases, answers)
+        lap('compare')
     else:
         ctx.notes.append('model did not build: correspondence skipped, direct oracle only')
         for (key, impl) in cases:
